@@ -36,17 +36,25 @@ func init() {
 		ID:    "C15",
 		Level: "exploration",
 		Rule: "roundtrip case = one document over a presence pattern of the 14 file types (thorough: all 2^14 patterns on small files; quick: 600 sampled patterns incl. all single-file and all-but-one patterns; some with DG2/DG7 up to 64 KiB) x one of the 8 evidence subsets (synthetic field values: plausible sizes, nil / empty / one-byte / leading-zero / 512-byte edge values, arbitrary OIDs), exported with DocumentEx.ToCbor, Document.ToCbor and Session.ChipAuthEvidenceToCbor and imported again; live case = a genuine simulated read (CA / PACE-CAM / AA) exported and imported; " +
+			"session-state case = one of the 10^3 combinations of the state of PACE-CAM x CA x AA in the session (nothing recorded | only an error | result with evidence present/absent x recorded step error present/absent x Success true/false; error values of 8 kinds) with the steps that carry no evidence (chip activation, BAC, PACE, passive authentication, Document.Verify results and errors) drawn at random, on an empty / small document (thorough: 6 repetitions with other values and documents); live-failed case = a simulated read against a chip that deviates in one step (AA signed with another key / over another challenge / not answered, CA refused / with foreign session keys, untrusted issuer, wrong password; 10 modes) so that the reader itself records evidence next to an error; oracle for both: every evidence struct present before the export is present and field-for-field equal after the import, absent ones stay absent, whatever the other session fields say (only evidence is required to round-trip: the format carries neither Success flags nor errors); " +
 			"corruption case = one exported blob at one level (outer / document / evidence): every byte position x all 255 substitutions when the blob is <= 640 bytes, otherwise every structural byte (map heads, keys, value heads, checksums, region borders) plus a stride through the contents x all 255 substitutions; truncation at every length; extension by 1..16 zero / FF / random bytes and by a second CBOR item; " +
 			"envelope case = magic and version rewritten with a valid checksum at each nesting level, directly and nested in valid outer envelopes; " +
 			"non-trivial = every import attempt; distinct = distinct (document, evidence) for round trips, distinct (blob, level, kind, position) for mutations",
 		MinEvaluations: 500000,
-		HangSeconds:    600,
+		// Watchdog only (a hang is a verdict for C11/C12, for C15 it means "broken harness").
+		// Was 600. Two thorough runs at seed 1 on a machine at load average ~500 (16 cores) ended
+		// with HANG on corrupt|blob=23 level=outer (#17173) and corrupt|blob=123 level=outer
+		// (#17473): 64 KiB-class blobs that take about one minute of CPU each when replayed
+		// alone (no violation). The limit is a wall-clock guard and says nothing about the
+		// library, so it is raised rather than the workload cut.
+		HangSeconds: 3600,
 		Assumptions: []string{
 			"the files of one generated document need not be mutually consistent (the SOD does not have to list the data groups present): serialisation treats every file on its own",
 			"an evidence field that is empty but not nil may come back as nil (CBOR omitempty / null cannot tell them apart): counted, not flagged",
 			"EF.DIR content is a hand-written application template list (61 { 4F aid, 50 label })",
 			"version 0 (older than any release) for the document envelopes and version 1 for evidence are only observed; the property demands rejection of a foreign magic and of a newer version",
 			"a file rejected by its constructor is left out of the document (parsing of well-formed files belongs to C19)",
+			"of a session only the three evidence structs must survive export and import; Success flags, recorded errors and the results of BAC / PACE / passive authentication are not part of the format and are not compared",
 		},
 		Run: runC15,
 	})
@@ -948,7 +956,10 @@ func c15RoundTrip(k *fw.K, docEx *document.DocumentEx, label string) *c15Blobs {
 			k.CountN("evidence_empty_value_came_back_nil_or_vice_versa", int64(nilLost))
 		}
 		if field != "" {
-			k.Violation("cbor:roundtrip:evidence-differs:"+field+sfx, fmt.Sprintf("evidence value %s differs after export and import (%s)", field, level), det(map[string]any{"exported": c15EvString(want), "imported": c15EvString(got)}))
+			cam, ca, aa := c15SessionMechs(&docEx.Session)
+			when := c15Diagnose(&docEx.Session, want)
+			k.Violation("cbor:roundtrip:evidence-differs:"+field+when+sfx, fmt.Sprintf("evidence value %s differs after export and import (%s)%s", field, level, strings.ReplaceAll(when, ":", " ")),
+				det(map[string]any{"exported": c15EvString(want), "imported": c15EvString(got), "session_state": fmt.Sprintf("PACE-CAM{%v} CA{%v} AA{%v}", cam, ca, aa), "session_errors": c15ErrString(&docEx.Session)}))
 			ok = false
 		}
 	}
@@ -1100,6 +1111,32 @@ func c15Positions(blob []byte, lab []string, r *mrand.Rand, stride int) []int {
 	return out
 }
 
+// c15CountStructural shows in the evidence that the substitution sweep reaches every
+// structural byte (map heads, keys, value heads - everything that is not the content of a
+// value) of every nesting level the harness's reader can label: per nesting path the number
+// of structural bytes in the blobs and how many of them the sweep left out (expected: none).
+func c15CountStructural(k *fw.K, level string, lab []string, positions []int) {
+	swept := make([]bool, len(lab))
+	for _, p := range positions {
+		swept[p] = true
+	}
+	for p, l := range lab {
+		if l == "unparsed" {
+			k.Count("bytes_the_harness_reader_could_not_label_level=" + level)
+			continue
+		}
+		cut := strings.LastIndex(l, "/") + 1
+		if strings.HasPrefix(l[cut:], "val:") {
+			continue
+		}
+		path := "/" + l[:cut]
+		k.Count("structural_bytes_level=" + level + "_nesting=" + path)
+		if !swept[p] {
+			k.Count("structural_bytes_NOT_SWEPT_level=" + level + "_nesting=" + path)
+		}
+	}
+}
+
 func c15Corrupt(c *fw.Ctx, k *fw.K, t *c15Target, blobID int, r *mrand.Rand) {
 	blob := t.blob
 	n := len(blob)
@@ -1136,6 +1173,7 @@ func c15Corrupt(c *fw.Ctx, k *fw.K, t *c15Target, blobID int, r *mrand.Rand) {
 		stride = n / c.Pick(120, 300)
 	}
 	positions := c15Positions(blob, lab, r, stride)
+	c15CountStructural(k, t.level, lab, positions)
 	buf := append([]byte{}, blob...)
 	var rej, eq int64
 	eqRegions := map[string]int64{}
@@ -1571,4 +1609,7 @@ func runC15(c *fw.Ctx) {
 		}
 		c15Corrupt(c, k, t, i, r)
 	})
+
+	// --- session state: evidence x recorded error x success per mechanism; failed live reads
+	c15SessionCases(c, pool)
 }
